@@ -634,9 +634,24 @@ def make_processors():
     """Recording processors (classes are created lazily: hypergraph must be pinned first)."""
     from hypergraph.events import AsyncEventProcessor, EventProcessor
 
-    class RecProc(EventProcessor):
-        def __init__(self, tag="p"):
+    class _EqGroup:
+        """Processors created with the same eq_group compare (and hash) equal although they are distinct objects -
+        two collectors written as dataclasses with equal contents, say. Without a group: identity, as usual."""
+
+        eq_group = None
+
+        def __eq__(self, other):
+            if self.eq_group is None:
+                return self is other
+            return type(other) is type(self) and other.eq_group == self.eq_group
+
+        def __hash__(self):
+            return id(self) if self.eq_group is None else hash(self.eq_group)
+
+    class RecProc(_EqGroup, EventProcessor):
+        def __init__(self, tag="p", eq_group=None):
             self.tag = tag
+            self.eq_group = eq_group
 
         def on_event(self, event):
             CUR.add("ev", self.tag, event)
@@ -644,11 +659,12 @@ def make_processors():
         def shutdown(self):
             CUR.add("shutdown", self.tag)
 
-    class ARecProc(AsyncEventProcessor):
+    class ARecProc(_EqGroup, AsyncEventProcessor):
         """Async recorder that turns every emission into 0..n extra suspension points."""
 
-        def __init__(self, tag="ap", rng=None, max_yields=3, min_yields=0):
+        def __init__(self, tag="ap", rng=None, max_yields=3, min_yields=0, eq_group=None):
             self.tag = tag
+            self.eq_group = eq_group
             self.rng = rng
             self.max_yields = max_yields
             self.min_yields = min_yields
